@@ -98,6 +98,45 @@ Definition f13o_d2 : doc := mkdoc [119; 101; 32; 114; 101; 99; 105; 101; 118; 10
      mktok (mkspan 29 30) (KSpace 1);
      mktok (mkspan 30 34) (KWord (Some 3951581020519374071%N))].
 
+(* F13e (Markdown): [errror] from want they.   ->   a paragraph `He when old centre high slowly.` prepended *)
+Definition f13e_l1 : ilint := mkilint (mkspan 1 7) 0%N [ReplaceWith [101; 114; 114; 111; 114]%N; ReplaceWith [101; 114; 114; 111; 114; 115]%N; ReplaceWith [104; 111; 114; 114; 111; 114]%N] [68; 105; 100; 32; 121; 111; 117; 32; 109; 101; 97; 110; 32; 116; 111; 32; 115; 112; 101; 108; 108; 32; 8220; 101; 114; 114; 114; 111; 114; 8221; 32; 116; 104; 105; 115; 32; 119; 97; 121; 63]%N 63%N.
+Definition f13e_d1 : doc := mkdoc [91; 101; 114; 114; 114; 111; 114; 93; 32; 102; 114; 111; 109; 32; 119; 97; 110; 116; 32; 116; 104; 101; 121; 46]%N
+    [mktok (mkspan 0 1) (KPunct 116533213383035832%N);
+     mktok (mkspan 1 7) (KWord None);
+     mktok (mkspan 7 8) (KPunct 1427947216303349215%N);
+     mktok (mkspan 8 9) (KSpace 1);
+     mktok (mkspan 9 13) (KWord (Some 3748386058268397925%N));
+     mktok (mkspan 13 14) (KSpace 1);
+     mktok (mkspan 14 18) (KWord (Some 4306001953521958049%N));
+     mktok (mkspan 18 19) (KSpace 1);
+     mktok (mkspan 19 23) (KWord (Some 1688396514478611654%N));
+     mktok (mkspan 23 24) (KPunct 1573820018010711441%N)].
+Definition f13e_l2 : ilint := mkilint (mkspan 34 40) 0%N [ReplaceWith [101; 114; 114; 111; 114]%N; ReplaceWith [101; 114; 114; 111; 114; 115]%N; ReplaceWith [104; 111; 114; 114; 111; 114]%N] [68; 105; 100; 32; 121; 111; 117; 32; 109; 101; 97; 110; 32; 116; 111; 32; 115; 112; 101; 108; 108; 32; 8220; 101; 114; 114; 114; 111; 114; 8221; 32; 116; 104; 105; 115; 32; 119; 97; 121; 63]%N 63%N.
+Definition f13e_d2 : doc := mkdoc [72; 101; 32; 119; 104; 101; 110; 32; 111; 108; 100; 32; 99; 101; 110; 116; 114; 101; 32; 104; 105; 103; 104; 32; 115; 108; 111; 119; 108; 121; 46; 10; 10; 91; 101; 114; 114; 114; 111; 114; 93; 32; 102; 114; 111; 109; 32; 119; 97; 110; 116; 32; 116; 104; 101; 121; 46]%N
+    [mktok (mkspan 0 2) (KWord (Some 112950805897709687%N));
+     mktok (mkspan 2 3) (KSpace 1);
+     mktok (mkspan 3 7) (KWord (Some 3916128897071362094%N));
+     mktok (mkspan 7 8) (KSpace 1);
+     mktok (mkspan 8 11) (KWord (Some 4505715797009193009%N));
+     mktok (mkspan 11 12) (KSpace 1);
+     mktok (mkspan 12 18) (KWord (Some 955106122645338673%N));
+     mktok (mkspan 18 19) (KSpace 1);
+     mktok (mkspan 19 23) (KWord (Some 3951581020519374071%N));
+     mktok (mkspan 23 24) (KSpace 1);
+     mktok (mkspan 24 30) (KWord (Some 2223533944271181629%N));
+     mktok (mkspan 30 31) (KPunct 1573820018010711441%N);
+     mktok (mkspan 0 0) (KParagraphBreak);
+     mktok (mkspan 33 34) (KPunct 116533213383035832%N);
+     mktok (mkspan 34 40) (KWord None);
+     mktok (mkspan 40 41) (KPunct 1427947216303349215%N);
+     mktok (mkspan 41 42) (KSpace 1);
+     mktok (mkspan 42 46) (KWord (Some 3748386058268397925%N));
+     mktok (mkspan 46 47) (KSpace 1);
+     mktok (mkspan 47 51) (KWord (Some 4306001953521958049%N));
+     mktok (mkspan 51 52) (KSpace 1);
+     mktok (mkspan 52 56) (KWord (Some 1688396514478611654%N));
+     mktok (mkspan 56 57) (KPunct 1573820018010711441%N)].
+
 Definition doc_wfb (d : doc) : bool := forallb (fun t => span_inb (length (dsrc d)) (tspan t)) (dtoks d).
 Lemma doc_wfb_spec d : doc_wfb d = true -> doc_wf d.
 Proof.
@@ -262,3 +301,34 @@ Lemma f12_fixed_same : context_fixed f12_l1 f12_d1 = context_fixed f12_l2 f12_d2
 Proof. vm_compute. reflexivity. Qed.
 Lemma f13s_fixed_same : context_fixed f13s_l1 f13s_d1 = context_fixed f13s_l2 f13s_d2.
 Proof. vm_compute. reflexivity. Qed.
+
+(* ---------- F13e: the prequel window is dropped below offset 2 ---------- *)
+Lemma f13e_wf : doc_wf f13e_d1 /\ doc_wf f13e_d2.
+Proof. split; apply doc_wfb_spec; vm_compute; reflexivity. Qed.
+Lemma f13e_untouched : untouched f13e_l1 f13e_d1 f13e_l2 f13e_d2.
+Proof. split; [repeat split|]. eexists. split; vm_compute; reflexivity. Qed.
+Lemma f13e_contexts_differ : context f13e_l1 f13e_d1 <> context f13e_l2 f13e_d2.
+Proof. apply res_ctx_neq; vm_compute; reflexivity. Qed.
+Lemma f13e_fixed_same : context_fixed f13e_l1 f13e_d1 = context_fixed f13e_l2 f13e_d2.
+Proof. vm_compute. reflexivity. Qed.
+
+(* the lint starts at offset 1: no prequel window.  A paragraph is put in front (no token lands within
+   two characters of the lint): now there is a prequel window and it holds the `[` that was there all along *)
+Theorem stable_refuted_prequel :
+  exists l d l' d',
+    doc_wf d /\ doc_wf d' /\ untouched l d l' d' /\
+    (exists k, l' = shift_lint k l /\ skipn k (dsrc d') = dsrc d) /\
+    sstart (il_span l) = 1 /\
+    no_quote (match nb_tokens l d with Ok w => w | Panic _ => [] end) /\
+    context_fixed l d = context_fixed l' d' /\
+    exists c c', context l d = Ok c /\ context l' d' = Ok c' /\ c <> c' /\
+      forall hash : ctx -> N, hash c <> hash c' ->
+        exists s1, ignore_lint context hash [] l d = Ok s1 /\ is_ignored context hash s1 l' d' = Ok false.
+Proof.
+  exists f13e_l1, f13e_d1, f13e_l2, f13e_d2.
+  split; [apply f13e_wf|]. split; [apply f13e_wf|]. split; [apply f13e_untouched|].
+  split; [exists 33; split; vm_compute; reflexivity|]. split; [reflexivity|].
+  split; [vm_compute; repeat constructor; intros t; discriminate|].
+  split; [apply f13e_fixed_same|].
+  apply refutes; [apply f13e_contexts_differ | vm_compute; reflexivity | vm_compute; reflexivity].
+Qed.
